@@ -779,8 +779,9 @@ class Engine:
                 yield ("val", RefsDict(o), st)
             elif attr in st.zh:
                 v = z3.Select(st.zh[attr], o.t)
-                if attr in self.options.get("ref_fields", ()):
-                    v = Ref(v)
+                rf = self.options.get("ref_fields", ())
+                if attr in rf:
+                    v = Ref(v, rf[attr]) if isinstance(rf, dict) else Ref(v)          # (a dict also says of which class the referenced objects are)
                 yield ("val", v, st)
             elif o.cls is not None:
                 yield from self.class_attr(o, o.cls, attr, st)
